@@ -2,9 +2,9 @@ CFG = P(
     "c09",
     pregen=["python3", "lib/rs2lean.py"],
     model_search={"build": ["Cascette.Generated.CryptoSrc"], "cmd": ["lake", "env", "lean", "--run", "Search/C09.lean"]},
-    model_is_spec=["salsa", "salsa_split", "hl", "hl2", "j96", "arc4", "arc4_split", "memcmp", "memeq", "memmem", "memset", "memcpy"],
+    model_is_spec=["salsa", "salsa_split", "hl", "hl2", "j96", "md5", "arc4", "arc4_split", "memcmp", "memeq", "memmem", "memset", "memcpy"],
     partial=[
-        "MD5 (md-5 crate) is compared by the run only; the SIMD helpers are modelled as lane loops with the vector compare/movemask/trailing_zeros abstracted to `first differing index of two w-byte chunks` (theorems simd_*_eq_scalar hold for every lane width and buffer); the intrinsics themselves and batch hash helpers are compared by the run (accelerated == scalar == std on every buffer length 0..=200 and every host CPU-feature subset)",
+        "MD5 content/encoding keys: the model is RFC 1321 itself (Spec/Md5.lean, checked against the RFC test suite by kernel evaluation); agreement of the md-5 crate with it is established by the run on every length 0..=300 and around every 64-byte padding boundary (no theorem about the crate); the SIMD helpers are modelled as lane loops with the vector compare/movemask/trailing_zeros abstracted to `first differing index of two w-byte chunks` (theorems simd_*_eq_scalar hold for every lane width and buffer); the intrinsics themselves and batch hash helpers are compared by the run (accelerated == scalar == std on every buffer length 0..=200 and every host CPU-feature subset)",
         "ARC4: round-trip, piecewise and key-length theorems are proved of the model; agreement of the model with RC4 is by the published known answers and the differential run",
     ],
     tb=[
